@@ -23,6 +23,9 @@ type Options struct {
 	IndentSize         int
 	AlignAmounts       bool
 	MinAlignmentColumn int
+	// SkipLines lists lines (0-based) that must not be rewritten, typically the lines on
+	// which the parser reported an error: text it did not understand would be lost.
+	SkipLines map[int]bool
 }
 
 func DefaultOptions() Options {
@@ -161,8 +164,11 @@ func formatTransactionWithOpts(tx *ast.Transaction, mapper *lsputil.PositionMapp
 
 	for i := range tx.Postings {
 		posting := &tx.Postings[i]
-		formatted := formatPostingWithOpts(posting, alignment, commodityFormats, indent, opts.AlignAmounts)
 		line := posting.Range.Start.Line - 1
+		if opts.SkipLines[line] {
+			continue
+		}
+		formatted := formatPostingWithOpts(posting, alignment, commodityFormats, indent, opts.AlignAmounts)
 
 		edit := protocol.TextEdit{
 			Range: protocol.Range{
